@@ -16,6 +16,8 @@ pub enum CallOut {
     ResUnit(Result<(), dr::Error>),
     ResId(Result<u32, dr::Error>),
     ResInst(Result<dr::Instruction, dr::Error>),
+    /// an argument value of the pinned grammar that this tree's enum / mask type cannot represent: the call was not made
+    Unmakeable,
 }
 pub fn out_unit(_: ()) -> CallOut { CallOut::Unit }
 pub fn out_id(i: u32) -> CallOut { CallOut::Id(i) }
@@ -27,6 +29,7 @@ fn err_variant(e: &dr::Error) -> String { crate::gen::errors::loader_err_name(e)
 impl CallOut {
     pub fn to_json(&self) -> Value {
         match self {
+            CallOut::Unmakeable => json!(["Unmakeable"]),
             CallOut::Unit => json!(["Ok"]),
             CallOut::Id(i) => json!(["Ok", jw(*i)]),
             CallOut::ResUnit(Ok(())) => json!(["Ok"]),
@@ -188,6 +191,9 @@ pub struct Session<'g> {
 }
 
 /// one logged call of a generated / hand-written method
+thread_local! { pub static UNMAKEABLE: std::cell::Cell<u64> = std::cell::Cell::new(0); }
+/// the id a call returned, when it returned one
+fn res_id(ev: &Value) -> Option<u32> { if ev["res"][0] == "Ok" && ev["res"][1].is_array() && ev["res"][1].as_array().map(|a| a.len() == 2 && a[0].is_u64()).unwrap_or(false) { Some(unw(&ev["res"][1])) } else { None } }
 pub fn logged_call(s: &mut Session, out: &mut Out, name: &str, with_module: bool) -> Value {
     if name.ends_with("_bit64") {
         // "arguments conforming to the instruction's grammar": a 64-bit literal needs a 64-bit type
@@ -196,12 +202,17 @@ pub fn logged_call(s: &mut Session, out: &mut Out, name: &str, with_module: bool
         s.a.explicit_rid = None;
         let ev = logged_call(s, out, "type_int", with_module);
         s.a.explicit_rid = saved.0; s.a.ip = saved.1;
-        s.a.forced_rt = Some(unw(&ev["res"][1]));
+        s.a.forced_rt = res_id(&ev);
     }
     s.a.reset();
     let b = &mut s.b;
     let a = &mut s.a;
     let r = catch(|| call_method(b, name, a));
+    if let Ok(CallOut::Unmakeable) = &r {
+        // not a call of the Builder: nothing happened, nothing is recorded (the enum types are C08's subject)
+        UNMAKEABLE.with(|c| c.set(c.get() + 1));
+        return json!({"ev": "bcall", "m": name, "res": ["Unmakeable"]});
+    }
     let res = match &r { Ok(o) => o.to_json(), Err(p) => jpanic(p) };
     let post = catch(|| (s.b.selected_function(), s.b.selected_block()));
     let (sf, sb) = post.unwrap_or((None, None));
@@ -286,18 +297,20 @@ fn suite_switch64(g: &Gram, out: &mut Out, seed: u64) {
     for (k, how) in ["function_parameter", "undef", "constant_null", "i_add", "constant_bit64"].iter().enumerate() {
         let mut s = new_session(g, out, "new", seed + k as u64);
         s.a.forced_lits = vec![64, (k % 2) as u32];
-        let t = unw(&logged_call(&mut s, out, "type_int", true)["res"][1]);
-        let mut sel = 0;
+        // (a call that fails or panics on the tree under test is recorded as such; the scenario then ends early)
+        let Some(t) = res_id(&logged_call(&mut s, out, "type_int", true)) else { finish_event(s, out, None); continue };
+        let mut sel = Some(0);
         if *how == "constant_null" || *how == "constant_bit64" {
             s.a.forced_rt = Some(t);
             if *how == "constant_bit64" { s.a.forced_rt = None; }
             let ev = if *how == "constant_bit64" { logged_call(&mut s, out, "constant_bit64", true) } else { logged_call(&mut s, out, how, true) };
-            sel = unw(&ev["res"][1]);
+            sel = res_id(&ev);
         }
         logged_call(&mut s, out, "begin_function", true);
-        if *how == "function_parameter" { s.a.forced_rt = Some(t); sel = unw(&logged_call(&mut s, out, how, true)["res"][1]); }
+        if *how == "function_parameter" { s.a.forced_rt = Some(t); sel = res_id(&logged_call(&mut s, out, how, true)); }
         logged_call(&mut s, out, "begin_block", true);
-        if *how == "undef" || *how == "i_add" { s.a.forced_rt = Some(t); sel = unw(&logged_call(&mut s, out, how, true)["res"][1]); }
+        if *how == "undef" || *how == "i_add" { s.a.forced_rt = Some(t); sel = res_id(&logged_call(&mut s, out, how, true)); }
+        let Some(sel) = sel else { finish_event(s, out, None); continue };
         s.a.forced_ids = vec![sel];
         s.a.ow_64 = true;
         logged_call(&mut s, out, "switch", true);
@@ -534,5 +547,5 @@ pub fn drive(args: &[String]) {
         other => panic!("vh: unknown builder suite {}", other),
     }
     let events = out.finish();
-    println!("{}", json!({"events": events, "histories": histories, "methods": METHODS.len(), "pub_fn": N_PUB_FN}));
+    println!("{}", json!({"events": events, "histories": histories, "methods": METHODS.len(), "pub_fn": N_PUB_FN, "calls_not_made_unrepresentable_argument": UNMAKEABLE.with(|c| c.get())}));
 }
